@@ -31,6 +31,7 @@ func init() {
 	register("C08", checkC08)
 	register("C02", checkC02)
 	register("C15", checkC15)
+	register("C10", checkC10)
 }
 
 func main() {
